@@ -659,8 +659,19 @@ func (p *PathConds) boolSummaryOf(g *ssa.Function) *boolSummary {
 		return s
 	}
 	boolSumCache[g] = nil
+	if isOpaquePred(g) {
+		return nil
+	}
+	s := p.boolSummaryAny(g)
+	boolSumCache[g] = s
+	return s
+}
+
+// boolSummaryAny: the summary of any small predicate, also of those that path conditions keep
+// opaque because the rules use them as vocabulary (their definitions are checked through this).
+func (p *PathConds) boolSummaryAny(g *ssa.Function) *boolSummary {
 	t := p.t
-	if !t.w.InRepo(g) || len(g.Blocks) == 0 || len(g.Blocks) > 16 || isOpaquePred(g) {
+	if !t.w.InRepo(g) || len(g.Blocks) == 0 || len(g.Blocks) > 16 {
 		return nil
 	}
 	res := g.Signature.Results()
@@ -782,7 +793,6 @@ func (p *PathConds) boolSummaryOf(g *ssa.Function) *boolSummary {
 			}
 		}
 	}
-	boolSumCache[g] = sum
 	return sum
 }
 
